@@ -672,8 +672,14 @@ func (obj *DenseReal64Matrix) UnmarshalJSON(data []byte) error {
   if err := json.Unmarshal(data, &r); err != nil {
     return err
   }
+  if r.Rows < 0 || r.Cols < 0 || r.Rows*r.Cols != len(r.Values) {
+    return fmt.Errorf("invalid json matrix representation: number of values does not match the dimensions")
+  }
   obj.values = nilDenseReal64Vector(len(r.Values))
   for i := 0; i < len(r.Values); i++ {
+    if r.Values[i] == nil {
+      return fmt.Errorf("invalid json matrix representation: null element")
+    }
     obj.values[i] = r.Values[i]
   }
   obj.rows = r.Rows
